@@ -144,7 +144,9 @@ func GenC14(seed uint64, tier string) *Plan {
 			if r.Chance(0.4) {
 				st.Faults[0].Note = "keep-value"
 			}
-			if r.Chance(0.2) {
+			if r.Chance(0.12) {
+				st.Faults = []Fault{{Seam: "resp", Kind: "ms-ill-formed", Sel: r.Intn(8), At: r.Intn(12)}}
+			} else if r.Chance(0.2) {
 				st.Faults = []Fault{{Seam: "resp", Kind: "ms-neutral", Sel: r.Intn(6), At: r.Intn(6)}}
 			} else if st.Faults[0].Kind == "ms-response-status" && r.Chance(0.35) {
 				// the failing status is ADDED to the response, its propstats stay
